@@ -129,6 +129,12 @@ var curated = []string{
 	"T | project a, a, b = a, a = b",
 	"T | extend x = 1, y = 2 | extend x = y, y = x",
 	"T | where x in (1, 2, 3) and y in ('a', 'b') or n in (x, y)",
+	// deep nesting (recursion depth of the parser and the writer): nested calls, index expressions, in-lists
+	"T | where " + strings.Repeat("abs(", 40) + "x" + strings.Repeat(")", 40) + " > 0",
+	"T | where " + strings.Repeat("f(", 90) + "x + 1" + strings.Repeat(")", 90) + " > 0 | project a",
+	"U | extend v = " + strings.Repeat("tolower(", 120) + "s" + strings.Repeat(")", 120),
+	"T | where " + strings.Repeat("m[", 70) + "'k'" + strings.Repeat("]", 70) + " == 1",
+	"T | where a in (1, b in (2, c in (3, d in (4, e in (5, 6)))))",
 	// lets that read a parameter (valid only when the parameter is supplied)
 	"let lim2 = lim; T | take lim2",
 	"let a1 = x; let b1 = a1 + y; T | where k == b1 | project a1, n",
